@@ -96,6 +96,7 @@ def flatten(o):
             "in_shape": ins, "in_kind": ink, "in_dtype": ind, "out_shape": os_, "out_kind": ok, "out_dtype": od,
             "oshape_spec": c["oshape"], "adj_checked": o["adj"]["checked"], "adj_nbad": o["adj"]["nbad"],
             "lin_vjp": o["adj"]["lin_vjp"], "lin_jvp": o["adj"]["lin_jvp"],
+            "lin0_vjp": o["adj"].get("lin0_vjp", 0), "lin0_jvp": o["adj"].get("lin0_jvp", 0), "vjp_late": bool(v.get("late")),
             "vjp_primal_eq": v["primal_eq"], "jvp_primal_eq": j["primal_eq"], "box": o["primal"]["box"],
             "intact": o["primal"]["intact"], "nest_eq": o["primal"]["nest_eq"],
             "second_checked": bool(o.get("second", {}).get("checked")), "second_nbad": o.get("second", {}).get("nbad", 0),
@@ -106,12 +107,13 @@ def flatten(o):
 def mirror(prop, r):
     """Python mirror of Contract!Holds; returns list of failing clause names (empty = holds)"""
     dp = lambda d: d in ("float64", "complex128")
-    rev = r["vjp_raised"] or r["vjp_nbad"] == 0
+    rev = r["vjp_raised"] or (r["vjp_nbad"] == 0 and not r["vjp_late"])
     fwd = r["jvp_raised"] or (r["jvp_nbad"] == 0 and r["jvp_shape"] == r["out_shape"] and r["jvp_kind"] == r["out_kind"])
     fails = []
-    if prop in ("C01",) and not rev:
-        fails.append("reverse-mode matrix differs from J^T (RevExact)")
-    if prop in ("C02",) and not fwd:
+    if prop in ("C01", "C14", "C17") and not rev:
+        fails.append("the VJP function stopped working / changed its answer when applied again (RevExact: for all cotangents)" if r["vjp_late"] and not r["vjp_raised"]
+                     else "reverse-mode matrix differs from J^T (RevExact)")
+    if prop in ("C02", "C14", "C17") and not fwd:
         fails.append("forward-mode matrix differs from J or tangent has the wrong structure (FwdExact)")
     if prop in ("C09", "C11"):
         if not rev:
@@ -123,13 +125,24 @@ def mirror(prop, r):
             fails.append("<g, JVP v> != <VJP g, v> on the basis (Adjoint)")
         if r["lin_vjp"] or r["lin_jvp"]:
             fails.append("VJP or JVP not linear (Adjoint)")
-    if prop == "C05":
+        if r["lin0_vjp"] or r["lin0_jvp"]:
+            fails.append("VJP or JVP not linear as a traced function at the origin: d/dg vjp(g) at g=0 differs from vjp (Adjoint)")
+    if prop == "C10" and not r["vjp_raised"]:
+        if r["vjp_late"]:
+            fails.append("the VJP function is not reusable: a later call raised or re-applying a cotangent gave a different result")
+        if not r["intact"]:
+            fails.append("a user-supplied input was modified")
+    if prop in ("C05", "C14", "C17"):
         if not r["vjp_raised"] and not (r["vjp_shape"] == r["in_shape"] and r["vjp_kind"] == r["in_kind"]
                                         and (not dp(r["in_dtype"]) or r["vjp_dtype"] == r["in_dtype"])):
             fails.append("VJP result has structure %s/%s/%s, argument has %s/%s/%s" %
                          (r["vjp_shape"], r["vjp_kind"], r["vjp_dtype"], r["in_shape"], r["in_kind"], r["in_dtype"]))
         if not r["jvp_raised"] and not (r["jvp_shape"] == r["out_shape"] and r["jvp_kind"] == r["out_kind"]):
             fails.append("JVP result has structure %s/%s, output has %s/%s" % (r["jvp_shape"], r["jvp_kind"], r["out_shape"], r["out_kind"]))
+    if prop == "C08" and (r["lin0_vjp"] or r["lin0_jvp"]):
+        fails.append("nested differentiation through the rule at a zero cotangent/tangent: d/dg vjp(g) at g=0 differs from the rule's linear map")
+    if prop == "C07" and (r["lin0_vjp"] or r["lin0_jvp"]):
+        fails.append("derivative of the VJP/JVP with respect to its cotangent/tangent at the origin differs from the VJP/JVP itself")
     if prop == "C07" and r["second_checked"]:
         if r["second_nbad"]:
             fails.append("Hessian-vector products of different mode sequences disagree")
@@ -155,7 +168,7 @@ def mirror(prop, r):
 
 FAMILIES = {
     # family: (MaxRank quick, MaxRank thorough, kinds)
-    "helper": (3, 3, ["rr"]), "argsweep": (2, 2, ["rr"]), "index": (2, 3, ["rr"]), "kink": (2, 2, ["rr"]), "linalg": (3, 3, ["rr"]), "fft": (3, 3, ["rr"]), "join": (3, 3, ["rr"]), "contract": (3, 3, ["rr"]), "rearr": (3, 3, ["rr"]), "binary": (3, 4, ["rr"]), "where": (2, 2, ["rr"]), "reduce": (3, 4, ["rr"]), "cum": (3, 3, ["rr"]), "unary": (2, 2, ["rr"]),
+    "extend": (2, 2, ["rr"]), "helper": (3, 3, ["rr"]), "argsweep": (2, 2, ["rr"]), "index": (2, 3, ["rr"]), "kink": (2, 2, ["rr"]), "linalg": (3, 3, ["rr"]), "fft": (3, 3, ["rr"]), "join": (3, 3, ["rr"]), "contract": (3, 3, ["rr"]), "rearr": (3, 3, ["rr"]), "binary": (3, 4, ["rr"]), "where": (2, 2, ["rr"]), "reduce": (3, 4, ["rr"]), "cum": (3, 3, ["rr"]), "unary": (2, 2, ["rr"]),
 }
 COMPLEX_FAMILIES = {"linalg": (2, 3, ["cc"]), "fft": (3, 3, ["rr", "cc"]), "contract": (2, 3, ["cc", "cr", "rc"]), "binary": (2, 3, ["cc", "cr", "rc"]), "reduce": (2, 3, ["cc"]), "unary": (2, 2, ["cc"])}
 
@@ -365,6 +378,43 @@ INDEX_FAMILY = {"index": (2, 3, ["rr"])}
 
 def c11_index(tier, seed):
     return run_rules("C11", tier, seed, INDEX_FAMILY, 900, RULE, ASSUME, write=False)
+
+
+def merge(v1, cov, v2, cov2, key, keep=("families", "not_evaluated", "calls_that_raised", "observations_rejected_by_contract", "primitives_covered", "rule")):
+    """fold the result of a rule-table sub-run (v2, cov2) into the main verdict / coverage of a property"""
+    for k in ("states", "transitions", "traces_validated_against_impl", "evaluations", "distinct_nontrivial"):
+        cov[k] += cov2[k]
+    cov[key] = {k: cov2[k] for k in keep if k in cov2}
+    v1.violations += v2.violations
+    for k, n in v2.known_hits.items():
+        v1.known_hits[k] = v1.known_hits.get(k, 0) + n
+    cov["known_findings_reobserved"] = v1.known_hits
+
+
+def c08_rules(tier, seed):
+    """C08 inside the rules: the cotangent handed to an inner rule is a traced value of the enclosing differentiation and may be exactly
+    zero there; d/dg vjp(g) at g = 0 (forward over reverse) and d/dv jvp(v) at v = 0 must still be the rule's own linear map
+    (Contract!LinearAtZero) - on the families where operands are broadcast / reduced"""
+    fams = {k: FAMILIES[k] for k in ("binary", "where", "reduce", "contract", "extend", "unary")}
+    return run_rules("C08", tier, seed, fams, 300, RULE, ASSUME, write=False)
+
+
+def c10_rules(tier, seed):
+    """C10 per primitive configuration (Contract!Reusable): ONE VJP function applied to the whole cotangent basis, then to the first
+    cotangent again - a later call that raises or answers differently means the rule keeps state in its closure; inputs stay intact"""
+    return run_rules("C10", tier, seed, {k: v for k, v in FAMILIES.items() if k != "kink"}, 250, RULE, ASSUME, write=False)
+
+
+def c14_rules(tier, seed):
+    """C14 on array arguments: a derivative declared zero (`None` rule: where's condition, harness-registered primitives that are
+    piecewise constant in one argument) is an exact zero in the space of that argument, whatever the other shapes are"""
+    return run_rules("C14", tier, seed, {"extend": FAMILIES["extend"], "where": FAMILIES["where"]}, 700, RULE, ASSUME, write=False)
+
+
+def c17_rules(tier, seed):
+    """C17 on array arguments of different shapes (broadcast against each other, output summed or not), rules given or declared None,
+    registered positionally or through argnums=; both modes"""
+    return run_rules("C17", tier, seed, {"extend": FAMILIES["extend"]}, 1500, RULE, ASSUME, write=False)
 
 
 def c09(tier, seed, replay=None):
